@@ -649,6 +649,86 @@ func (r *runner) reRegistration(ctx context.Context, rnd *hx.Rand) error {
 	return nil
 }
 
+// sharedFilter: two triggers that the node-side filter cannot tell apart (same contract, same first topic) and that
+// differ in a predicate the filter does not carry (second topic, read as a number, at least 1000 / below 1000),
+// both pending while logs for each of them arrive close together, so that with a range limit above one they come
+// back from the node in one answer: each trigger fires on the first log matching its own definition.
+func (r *runner) sharedFilter(ctx context.Context, rnd *hx.Rand) error {
+	kind := syncrig.MultiEvent
+	opts := syncrig.Opts{AssumedReorgDepth: 3, MaxRange: []uint64{1, 3, 100}[rnd.Intn(3)]}
+	x, err := newWorld(ctx, kind, opts)
+	if err != nil {
+		return err
+	}
+	defer x.w.Close()
+	hist := []string{fmt.Sprintf("%s sync-start=0 depth=%d max-range=%d (two triggers with one filter and different further predicates)", kind, x.w.AssumedReorgDepth(), x.w.MaxRange())}
+	tip, tipSalt := x.w.Chain.Genesis(), uint64(0)
+	add := func(text string, logs func(w *syncrig.World) []types.Log) {
+		op := buildOp{parentNum: tip.Number(), parentSalt: tipSalt, salt: 0, logs: logs,
+			text: fmt.Sprintf("block %d/0 parent=%d/%d logs=%s", tip.Number()+1, tip.Number(), tipSalt, text)}
+		tip, tipSalt = x.apply(op), 0
+		hist = append(hist, op.text)
+	}
+	none := func(w *syncrig.World) []types.Log { return nil }
+	topic := h32("shared")
+	def := func(op shutterservice.Op) []byte {
+		return syncrig.TriggerDefinition(watched, syncrig.TopicEq(0, topic), syncrig.Pred{Offset: 1, Op: op, Int: big.NewInt(1000)})
+	}
+	regLarge := func(w *syncrig.World) types.Log {
+		return w.EventTriggerRegisteredLog(1, h32("large"), addrOf("senderlarge"), def(shutterservice.UintGte), 60)
+	}
+	regSmall := func(w *syncrig.World) types.Log {
+		return w.EventTriggerRegisteredLog(1, h32("small"), addrOf("sendersmall"), def(shutterservice.UintLt), 60)
+	}
+	plain := func(v int64) func(w *syncrig.World) []types.Log {
+		return func(w *syncrig.World) []types.Log {
+			return []types.Log{w.PlainLog(watched, []common.Hash{topic, common.BigToHash(big.NewInt(v))}, []byte{1})}
+		}
+	}
+	order := rnd.Intn(3)
+	switch order {
+	case 0:
+		add("register(large) register(small)", func(w *syncrig.World) []types.Log { return []types.Log{regLarge(w), regSmall(w)} })
+	case 1:
+		add("register(small) register(large)", func(w *syncrig.World) []types.Log { return []types.Log{regSmall(w), regLarge(w)} })
+	default:
+		add("register(large)", func(w *syncrig.World) []types.Log { return []types.Log{regLarge(w)} })
+		add("register(small)", func(w *syncrig.World) []types.Log { return []types.Log{regSmall(w)} })
+	}
+	sync := func() bool {
+		err := x.w.Sync(ctx, tip)
+		r.res.Evaluations++
+		hist = append(hist, fmt.Sprintf("sync %d/%d err=%v", tip.Number(), tipSalt, err))
+		_, c16 := check(x.w)
+		if c16 != "" {
+			r.violateOnce("shared-filter", "two pending triggers with the same node-side filter and different further predicates: "+c16, hist)
+			return false
+		}
+		return true
+	}
+	if rnd.Bool() { // the registrations are synced before the logs exist, or together with them
+		if !sync() {
+			return nil
+		}
+	}
+	for i := rnd.Intn(2); i > 0; i-- {
+		add("", none)
+	}
+	first, second := int64(5), int64(5000)
+	if rnd.Chance(40) {
+		first, second = second, first
+	}
+	add(fmt.Sprintf("log(shared,%d)", first), plain(first))
+	for i := rnd.Intn(3); i > 0; i-- {
+		add("", none)
+	}
+	add(fmt.Sprintf("log(shared,%d)", second), plain(second))
+	add("", none)
+	r.res.Count("shared-filter-scenarios")
+	sync()
+	return nil
+}
+
 // Run is the C15 / C16 check.
 func Run(cfg Config) (int, error) {
 	res := hx.NewResult(cfg.Prop, cfg.Seed, cfg.Tier)
@@ -681,6 +761,13 @@ func Run(cfg Config) (int, error) {
 	for sc := 0; sc < 12 && !r.stop; sc++ {
 		if err := r.reRegistration(ctx, rnd.Fork()); err != nil {
 			return 2, err
+		}
+	}
+	if cfg.Prop == "C16" {
+		for sc := 0; sc < 18 && !r.stop; sc++ {
+			if err := r.sharedFilter(ctx, rnd.Fork()); err != nil {
+				return 2, err
+			}
 		}
 	}
 	lines := []string{}
